@@ -53,21 +53,28 @@ KeyBytes(k) ==
     [] k = 6 -> <<160>> \o Rep(30, 17) \o <<1>>        \* 32 bytes
     [] k = 7 -> <<160>> \o Rep(30, 17) \o <<2>>        \* 32 bytes, shares 63 nibbles with 6
     [] k = 8 -> <<161>> \o Rep(31, 34)                 \* 32 bytes, shares 1 nibble with 6,7
+    (* long keys: nodes deeper than 255 nibbles (P = 128 bytes 0x5a, Q = 0x3c bytes) *)
+    [] k = 9  -> Rep(128, 90) \o <<1>>                  \* 129 bytes
+    [] k = 10 -> Rep(128, 90) \o <<2>>                  \* 129 bytes, shares 257 nibbles with 9
+    [] k = 11 -> Rep(128, 90) \o <<19>>                 \* 129 bytes, shares 256 nibbles with 9, 10
+    [] k = 12 -> Rep(128, 90)                           \* 128 bytes: a prefix of 9, 10, 11, 13, 14
+    [] k = 13 -> Rep(128, 90) \o Rep(128, 60)           \* 256 bytes
+    [] k = 14 -> Rep(128, 90) \o Rep(127, 60)           \* 255 bytes: a prefix of 13
+    [] k = 15 -> Rep(127, 90)                           \* 127 bytes: a prefix of 12
+    [] k = 16 -> <<90>> \o Rep(63, 7)                   \* 64 bytes, shares 1 byte with the long ones
 
-RECURSIVE Nibbles(_)
-Nibbles(bs) == IF bs = <<>> THEN <<>>
-               ELSE <<Head(bs) \div 16, Head(bs) % 16>> \o Nibbles(Tail(bs))
+Nibbles(bs) == [i \in 1..(2 * Len(bs)) |-> IF i % 2 = 1 THEN bs[(i + 1) \div 2] \div 16 ELSE bs[i \div 2] % 16]
 
 Term == 16
+AllKeyIds == 1..16
+AllValIds == 1..9
 PathOf(k) == Nibbles(KeyBytes(k)) \o <<Term>>           \* keybytesToHex
 
 (* value id -> length in bytes and first byte (all that RLP sizes depend on) *)
 VLen(v)   == CASE v = 1 -> 1  [] v = 2 -> 1  [] v = 3 -> 28 [] v = 4 -> 29
-               [] v = 5 -> 31 [] v = 6 -> 32 [] v = 7 -> 40 [] v = 8 -> 56
+               [] v = 5 -> 31 [] v = 6 -> 32 [] v = 7 -> 40 [] v = 8 -> 56 [] v = 9 -> 33
 VFirst(v) == CASE v = 1 -> 42 [] v = 2 -> 128 [] OTHER -> 224 + v
 
-AllKeyIds == 1..8
-AllValIds == 1..8
 
 -----------------------------------------------------------------------------
 (* Node constructors and helpers                                           *)
@@ -84,9 +91,14 @@ HasTerm(key) == Len(key) > 0 /\ key[Len(key)] = Term
 Drop(s, n) == SubSeq(s, n + 1, Len(s))
 Take(s, n) == SubSeq(s, 1, n)
 
-RECURSIVE PrefixLen(_, _)
-PrefixLen(a, b) == IF a = <<>> \/ b = <<>> \/ Head(a) # Head(b) THEN 0
-                   ELSE 1 + PrefixLen(Tail(a), Tail(b))
+(* length of the common prefix, by bisection on sub-sequence equality (keys may be 513 nibbles long) *)
+RECURSIVE PrefixBetween(_, _, _, _)
+PrefixBetween(a, b, lo, hi) ==     \* the first lo elements agree; the answer is in lo..hi
+  IF lo = hi THEN lo
+  ELSE LET mid == (lo + hi + 1) \div 2
+       IN  IF SubSeq(a, lo + 1, mid) = SubSeq(b, lo + 1, mid) THEN PrefixBetween(a, b, mid, hi)
+           ELSE PrefixBetween(a, b, lo, mid - 1)
+PrefixLen(a, b) == PrefixBetween(a, b, 0, IF Len(a) < Len(b) THEN Len(a) ELSE Len(b))
 
 -----------------------------------------------------------------------------
 (* RLP sizes, computed structurally (hasher.store embeds a child whose     *)
@@ -122,8 +134,8 @@ Hashable(n) == Kind(n) \in {"S", "F"} /\ EncLen(n) >= 32
 (* current position)                                                       *)
 CommonLen(S) ==
   LET e0 == CHOOSE e \in S : TRUE
-      Ok(n) == \A e \in S : Len(e[1]) >= n /\ Take(e[1], n) = Take(e0[1], n)
-  IN  CHOOSE n \in 0..Len(e0[1]) : Ok(n) /\ (n = Len(e0[1]) \/ ~Ok(n + 1))
+      ls == {PrefixLen(e0[1], e[1]) : e \in S}
+  IN  CHOOSE n \in ls : \A m \in ls : n <= m
 
 RECURSIVE CanonS(_)
 CanonS(S) ==
@@ -249,19 +261,18 @@ UpdateTree(t, k, v) == IF v = 0 THEN Delete(t, k) ELSE Insert(t, k, v)
 (* Iteration order: pre-order of the trie, i.e. ascending order of the     *)
 (* terminated nibble paths (Iterator / NodeIterator of iterator.go)        *)
 
-RECURSIVE PathLess(_, _)
-PathLess(a, b) == IF a = <<>> THEN b # <<>>
-                  ELSE IF b = <<>> THEN FALSE
-                  ELSE IF Head(a) # Head(b) THEN Head(a) < Head(b)
-                  ELSE PathLess(Tail(a), Tail(b))
+PathLess(a, b) == LET m == PrefixLen(a, b)
+                  IN  IF m = Len(a) THEN m < Len(b)
+                      ELSE IF m = Len(b) THEN FALSE
+                      ELSE a[m + 1] < b[m + 1]
 
-RECURSIVE SortKeys(_)
-SortKeys(ks) == IF ks = {} THEN <<>>
-                ELSE LET mn == CHOOSE k \in ks : \A o \in ks \ {k} : PathLess(PathOf(k), PathOf(o))
-                     IN  <<mn>> \o SortKeys(ks \ {mn})
+(* all keys of the universe in that order (checked once by the ASSUME) *)
+KeyOrder == <<3, 4, 5, 2, 16, 9, 10, 11, 13, 14, 12, 15, 6, 7, 8, 1>>
+ASSUME /\ {KeyOrder[i] : i \in 1..Len(KeyOrder)} = AllKeyIds /\ Len(KeyOrder) = 16
+       /\ \A i \in 1..15 : PathLess(PathOf(KeyOrder[i]), PathOf(KeyOrder[i + 1]))
 
 Live(c)     == {k \in DOMAIN c : c[k] # 0}
-IterOf(c)   == LET s == SortKeys(Live(c)) IN [i \in 1..Len(s) |-> <<s[i], c[s[i]]>>]
+IterOf(c)   == LET s == SelectSeq(KeyOrder, LAMBDA k : k \in Live(c)) IN [i \in 1..Len(s) |-> <<s[i], c[s[i]]>>]
 
 (* pre-order list of the nodes of a resolved tree:                         *)
 (*   <<path, kind, key-or-value, embedded>>                                *)
@@ -351,9 +362,11 @@ SetLimit(l) ==
   /\ UNCHANGED <<content, tree, prov, dbst>>
 
 (* NodeDatabase.Cap(limit): flush the oldest cached nodes to disk until the memory layer is   *)
-(* below the limit (how = 0: everything; 1, 2: the older half / quarter) and drop them from  *)
-(* memory.  No version may read differently afterwards.                                      *)
-Cap(how) ==
+(* below the limit and drop them from memory (the driver computes the limit that flushes    *)
+(* exactly the m oldest nodes).                                                              *)
+(* memory.  No version may read differently afterwards, and whatever version has its root   *)
+(* on disk must resolve from disk alone.                                                     *)
+Cap(how) ==     \* how = 0: limit 0 (everything); how = m > 0: exactly the m oldest nodes of the flush-list
   /\ dbst' = IF dbst \in {"cached", "partly"} THEN (IF how = 0 THEN "flushed" ELSE "partly") ELSE dbst
   /\ UNCHANGED <<content, tree, limit, prov>>
 
